@@ -183,6 +183,43 @@ func VerifC19Nested() {
 	c19Check(sch, root, nodes, v.vars)
 }
 
+// VerifC19Defaults: conditions from variables that take their declared default
+// (the client does not supply them) or are supplied, used in the operation body
+// and inside the body of a named fragment that is spread twice.
+func VerifC19Defaults() {
+	sch := xBuildSchema(&xConfig{})
+	root := xFixedRoot()
+	v := &c19Vars{vars: map[string]interface{}{}}
+	xVarDefaults = map[string]bool{}
+	cond := func(n *xNode, name string, vn string) *xNode {
+		var b bool
+		if nondet.Choice(name+".transport", 2) == 1 {
+			b = nondet.Choice(name+".default", 2) == 1
+			xVarDefaults[vn] = b
+		} else {
+			b = nondet.Bool(name + ".val")
+			v.vars[vn] = b
+		}
+		if vn[0] == 's' {
+			n.skip, n.skipVar = &b, vn
+		} else {
+			n.include, n.includeVar = &b, vn
+		}
+		return n
+	}
+	frag := &xFragDef{name: "G", on: "Item", subs: []*xNode{
+		xF("nums"),
+		cond(xAs("fv", xF("v")), "infrag.skip", "s0"),
+		cond(xF("sub", xF("c")), "infrag.include", "i0"),
+	}}
+	nodes := []*xNode{
+		xF("one", xSpread(frag), xF("id"), cond(xF("e"), "body.skip", "s1")),
+		xF("items", xF("id"), cond(xSpread(frag), "spread.include", "i1")),
+	}
+	c19Check(sch, root, nodes, v.vars)
+	xVarDefaults = nil
+}
+
 func VerifC19Witness() {
 	sch := xBuildSchema(&xConfig{})
 	root := xFixedRoot()
